@@ -5,6 +5,8 @@ import (
 	"encoding/base64"
 	"encoding/json"
 	"fmt"
+	"math/rand"
+	"os"
 	"io"
 	"sort"
 
@@ -127,8 +129,13 @@ func (s *authStream) RecvMsg(m interface{}) error {
 	return nil
 }
 
+type c05Casbin struct {
+	Policy [][3]string `json:"policy"`
+	Calls  [][3]string `json:"calls"`
+}
 type c05Input struct {
 	Basic  *c05Basic `json:"basic,omitempty"` // a case of the credential check itself
+	Casbin *c05Casbin `json:"casbin,omitempty"` // a sequence of Enforce calls on one accounts.CasbinAccess
 	Method string   `json:"method"`
 	Kind   string   `json:"kind"`
 	Cred   string   `json:"cred"` // none bad A B
@@ -177,6 +184,79 @@ func basicCases() []c05Basic {
 	return out
 }
 
+// the matcher of the repository's model file (test/model.conf)
+const casbinModel = `[request_definition]
+r = sub, obj, act
+
+[policy_definition]
+p = sub, obj, act
+
+[policy_effect]
+e = some(where (p.eft == allow))
+
+[matchers]
+m = r.sub == p.sub && (r.obj == p.obj || p.obj ==  "*") && (r.act == p.act || p.act == "*") || r.sub == "root"
+`
+
+func casbinCases(rng *rand.Rand, n int) []c05Casbin {
+	users := []string{"alice", "bob", "root", "eve"}
+	graphs := []string{"g", "h", "*"}
+	ops := []string{string(accounts.Query), string(accounts.Read), string(accounts.Write), string(accounts.Exec), string(accounts.Admin)}
+	out := []c05Casbin{{
+		// the repository's own policy, and a denied write followed by a granted read and the same write again
+		Policy: [][3]string{{"alice", "*", "*"}, {"bob", "test1", "read"}, {"bob", "test1", "query"}, {"bob", "test2", "write"}, {"bob", "test3", "query"}},
+		Calls: [][3]string{{"bob", "test1", "write"}, {"bob", "test1", "read"}, {"bob", "test1", "write"}, {"bob", "test2", "write"}, {"bob", "test2", "read"},
+			{"alice", "test9", "admin"}, {"eve", "test1", "read"}, {"root", "x", "write"}, {"bob", "test1", "write"}},
+	}}
+	for i := 0; i < n; i++ {
+		c := c05Casbin{}
+		for k := rng.Intn(6); k > 0; k-- {
+			op := ops[rng.Intn(len(ops))]
+			if rng.Intn(6) == 0 {
+				op = "*"
+			}
+			c.Policy = append(c.Policy, [3]string{users[rng.Intn(len(users))], graphs[rng.Intn(len(graphs))], op})
+		}
+		for k := 4 + rng.Intn(12); k > 0; k-- {
+			c.Calls = append(c.Calls, [3]string{users[rng.Intn(len(users))], graphs[rng.Intn(len(graphs))], ops[rng.Intn(len(ops))]})
+		}
+		out = append(out, c)
+	}
+	return out
+}
+
+func addCasbinCase(ctx *Ctx, c c05Casbin) {
+	dir, _ := os.MkdirTemp("", "c05casbin")
+	defer os.RemoveAll(dir)
+	os.WriteFile(dir+"/model.conf", []byte(casbinModel), 0o644)
+	lines := ""
+	for _, p := range c.Policy {
+		lines += fmt.Sprintf("p, %s, %s, %s\n", p[0], p[1], p[2])
+	}
+	os.WriteFile(dir+"/policy.csv", []byte(lines), 0o644)
+	ca := &accounts.CasbinAccess{Model: dir + "/model.conf", Policy: dir + "/policy.csv"}
+	got := make([]string, len(c.Calls))
+	obs := make([]bool, len(c.Calls))
+	allowed := 0
+	for i, q := range c.Calls {
+		ok := ca.Enforce(q[0], q[1], accounts.Operation(q[2])) == nil
+		got[i], obs[i] = coq.Bool(ok), ok
+		if ok {
+			allowed++
+		}
+	}
+	trip := func(l [][3]string) string {
+		out := make([]string, len(l))
+		for i, x := range l {
+			out[i] = coq.Pair(coq.Pair(coq.Str(x[0]), coq.Str(x[1])), coq.Str(x[2]))
+		}
+		return coq.List(out)
+	}
+	key, _ := json.Marshal(c)
+	ctx.Add(Case{Input: c05Input{Casbin: &c}, Observed: obs, Coq: "(CCasbin " + trip(c.Policy) + " " + trip(c.Calls) + " " + coq.List(got) + ")",
+		Nontrivial: allowed > 0 && allowed < len(c.Calls), Key: "casbin:" + string(key), Tags: []string{"kind=CasbinAccess.Enforce"}})
+}
+
 func addBasicCase(ctx *Ctx, b c05Basic) {
 	ba := accounts.BasicAuth{}
 	for _, a := range b.Accounts {
@@ -211,7 +291,7 @@ func runC05(ctx *Ctx) error {
 	ctx.CaseTy = "c05_any"
 	ctx.Shard = 500
 	ctx.Exhaustive = true
-	ctx.Rule = "BasicAuth.Validate on 4 account lists (empty, one, two incl. an empty password, duplicate name and empty name) x 36 (user, password) pairs incl. unknown users, empty and near-miss values, plus missing / misplaced / non-Basic / undecodable headers; and exhaustive (each observed call preceded by an authenticated unary and streamed call on the same interceptor pair): every method of the four generated ServiceDescs (driven through its generated handler, so the request message has its real type) x credentials {none, bad, user A, user B} x request graph {g, h} x policies {allow-all, deny-all, 6 pseudo-random allow/deny grids over user x graph (incl. the wildcard '*') x operation class}; BulkAdd additionally with element streams over graphs g/h; observed: was the handler reached (codes.Unimplemented from the Unimplemented*Server), which Enforce calls were made, error code; non-trivial = credentials validate; distinct by input"
+	ctx.Rule = "CasbinAccess.Enforce: the repository's policy and random policies of 0-5 lines over 4 users (incl. root) x graphs {g, h, *} x the five operation classes (and *), each with a sequence of 4-15 Enforce calls on ONE CasbinAccess value (a denied call followed by a granted one and the denied one again), every verdict against Model/Auth.v casbin_allows; BasicAuth.Validate on 4 account lists (empty, one, two incl. an empty password, duplicate name and empty name) x 36 (user, password) pairs incl. unknown users, empty and near-miss values, plus missing / misplaced / non-Basic / undecodable headers; and exhaustive (each observed call preceded by an authenticated unary and streamed call on the same interceptor pair): every method of the four generated ServiceDescs (driven through its generated handler, so the request message has its real type) x credentials {none, bad, user A, user B} x request graph {g, h} x policies {allow-all, deny-all, 6 pseudo-random allow/deny grids over user x graph (incl. the wildcard '*') x operation class}; BulkAdd additionally with element streams over graphs g/h; observed: was the handler reached (codes.Unimplemented from the Unimplemented*Server), which Enforce calls were made, error code; non-trivial = credentials validate; distinct by input"
 	descs := []grpc.ServiceDesc{gripql.Query_ServiceDesc, gripql.Edit_ServiceDesc, gripql.Job_ServiceDesc, gripql.Configure_ServiceDesc}
 	type meth struct {
 		name, kind string
@@ -245,10 +325,17 @@ func runC05(ctx *Ctx) error {
 			addBasicCase(ctx, *in.Basic)
 			return nil
 		}
+		if in.Casbin != nil {
+			addCasbinCase(ctx, *in.Casbin)
+			return nil
+		}
 		inputs = []c05Input{in}
 	} else {
 		for _, b := range basicCases() {
 			addBasicCase(ctx, b)
+		}
+		for _, c := range casbinCases(ctx.Rng, ctx.Pick(40, 400)) {
+			addCasbinCase(ctx, c)
 		}
 		policies := []int{-1, -2, 1, 2, 3, 4, 5, 6}
 		if ctx.Thorough() {
